@@ -202,6 +202,9 @@ func (in *Interp) eval(e ast.Expr, st *State) []ev {
 		var out []ev
 		for _, l := range in.eval(x.X, st) {
 			for _, r := range in.eval(x.Y, l.st) {
+				if in.Hooks.Binary != nil {
+					in.Hooks.Binary(r.st, x, l.v, r.v)
+				}
 				out = append(out, ev{r.st, in.arith(r.st, x.Op, l.v, r.v, x.Pos())})
 			}
 		}
@@ -212,6 +215,9 @@ func (in *Interp) eval(e ast.Expr, st *State) []ev {
 		var out []ev
 		for _, b := range in.eval(x.X, st) {
 			for _, i := range in.eval(x.Index, b.st) {
+				if in.Hooks.Access != nil {
+					in.Hooks.Access(i.st, x, b.v, i.v, nil, false)
+				}
 				out = append(out, ev{i.st, in.index(i.st, b.v, i.v)})
 			}
 		}
@@ -219,7 +225,29 @@ func (in *Interp) eval(e ast.Expr, st *State) []ev {
 	case *ast.SliceExpr:
 		var out []ev
 		for _, b := range in.eval(x.X, st) {
-			out = append(out, ev{b.st, Sym{Name: b.v.Canon() + "[" + core.ExprStr(x.Low) + ":" + core.ExprStr(x.High) + "]"}})
+			los := []ev{{b.st, nil}}
+			if x.Low != nil {
+				los = in.eval(x.Low, b.st)
+			}
+			for _, lo := range los {
+				his := []ev{{lo.st, nil}}
+				if x.High != nil {
+					his = in.eval(x.High, lo.st)
+				}
+				for _, hi := range his {
+					if in.Hooks.Access != nil {
+						in.Hooks.Access(hi.st, x, b.v, lo.v, hi.v, true)
+					}
+					loS, hiS := "", ""
+					if lo.v != nil {
+						loS = lo.v.Canon()
+					}
+					if hi.v != nil {
+						hiS = hi.v.Canon()
+					}
+					out = append(out, ev{hi.st, Sym{Name: b.v.Canon() + "[" + loS + ":" + hiS + "]"}})
+				}
+			}
 		}
 		return out
 	case *ast.CompositeLit:
